@@ -227,6 +227,18 @@ def _chunk(payload):
                     for head in ("a = @{ (!r0 ~ ANY)* }\n", "a = { r0 }\n", 'WHITESPACE = _{ " " }\na = { (!r0 ~ ANY)* ~ r0 }\n'):
                         texts.append(head + chain)
         return check_texts(texts, "rule-chains", loader=load_limited)
+    if kind == "case-mapping":
+        # letters whose upper/lower/casefold form is LONGER than one character, in every position of a choice the optimizer analyses
+        texts = []
+        for c in ("\u00df", "\u0130", "\u0149", "\ufb01", "\u212a", "\u01f0", "\u1e9e", "\u0390"):
+            for lit in (c, c + "a", "a" + c, c + c):
+                for alts in ("'0'..'9' | ^\"{l}\"", "^\"{l}\" | '0'..'9'", "ASCII_DIGIT | ^\"{l}\"", "\"x\" | ^\"{l}\" | 'a'..'z'", "^\"{l}\" | \"{l}b\"", "\"{l}\" | ^\"{l}b\" | LETTER",
+                             "ASCII_ALPHA | \"{l}\"", "'{c}'..'{c}' | ^\"{l}\""):
+                    body = alts.format(l=lit, c=c)
+                    texts.append(f"a = {{ {body} }}")
+                    texts.append(f"a = @{{ ({body})* ~ (!({body}) ~ ANY)* }}")
+                texts.append(f'WHITESPACE = _{{ ASCII_ALPHA | ^"{lit}" }}\nb = {{ "x" ~ "y" }}')
+        return check_texts(texts, "case-mapping")
     if kind == "ranges":
         # every character range over a set of bounds that mean something to a regular expression or to the grammar syntax,
         # forwards and reversed (a reversed range is valid and never matches), alone and inside a choice the optimizer merges
@@ -247,7 +259,7 @@ def _chunk(payload):
 def run(tier: str) -> int:
     b = BOUNDS[tier]
     rep = common.Report("C11", tier, "fault_enumeration")
-    payloads = [("escapes",), ("semantic",), ("huge-counts",), ("long-numbers",), ("odd-characters",), ("ranges",)] + [("rule-chains", tier, m) for m in ("", "_", "@", "$")]
+    payloads = [("escapes",), ("semantic",), ("huge-counts",), ("long-numbers",), ("odd-characters",), ("ranges",), ("case-mapping",)] + [("rule-chains", tier, m) for m in ("", "_", "@", "$")]
     for i in range(0, len(PUMP_UNITS), 3):
         payloads.append(("pumped", PUMP_UNITS[i:i + 3], [], PUMP_COUNTS[tier]))
     for oc in PUMP_CLOSERS:
